@@ -212,3 +212,18 @@ Proof. vm_compute. reflexivity. Qed.
 Theorem C17_d_spec_model : forall c, d_spec c (d_model c) = true.
 Proof. intros c. exact (spec_ok_model c). Qed.
 Print Assumptions C17_d_spec_model.
+
+(* The scope of the bound-now theorems is ONE manager per store.  With a second manager on
+   the same store (a graph object that does not share the dataset's manager: seeded change
+   C17-r2-3 for get_context, finding F6e for ConjunctiveGraph.default_context / Dataset.parse)
+   the bijection still holds - it is a property of the store - but the first manager's cached
+   answer names a prefix the second manager's bind has unbound. *)
+Theorem C17_second_manager_refuted :
+  exists split s p0 n0 u p ns nm,
+    let s' := other_manager_bind s p0 n0 true false in
+    bij s' /\ m_compute split s' u true = (s', inl (p, ns, nm)) /\ dget (p2n s') p = None.
+Proof.
+  destruct second_manager_witness as (B & p & ns & nm & E & D).
+  eexists. eexists. eexists. eexists. eexists. exists p, ns, nm. cbn zeta. split; [exact B|]. split; [exact E|exact D].
+Qed.
+Print Assumptions C17_second_manager_refuted.
